@@ -1,6 +1,7 @@
 package rules
 
 import (
+	"sort"
 	"go/constant"
 	"os"
 	"fmt"
@@ -142,6 +143,8 @@ func segString(segs []keySeg) string {
 
 func checkC16(P *core.Program, R *core.Report) {
 	defer checkOracleMsgFieldsApplied(P, R)
+	defer checkMsgListsExhausted(P, R)
+	defer checkPriceStamped(P, R)
 	R.Explanation = "Key schema (R8): the oracle price key builders are abstractly interpreted into segment sequences (Const / Var(param) / Fixed(8) / LenPrefixed); every (reverse) prefix scan in the oracle keeper whose prefix ends in an unterminated variable segment must filter — each `found` return inside the scan loop is dominated by equality between the decoded record's field and every variable argument of the prefix (the repair of F-16); SetPrice/GetPrice/RemovePrice share PriceKey whose last segment is the fixed-width big-endian timestamp, so reverse iteration yields the newest entry of one (asset, source). " +
 		"Source preference: GetAssetPrice looks up ELYS, then BAND, then any source, each later lookup only under ¬found of the earlier. No info / no price ⇒ zero: GetAssetPriceFromDenom returns the zero constant on both ¬found edges and prices info.Display of that denom. " +
 		"Expiry: EndBlock iterates GetAllPrice and reaches RemovePrice under Timestamp + PriceExpiryTime < block time and under BlockHeight + LifeTimeInBlocks < block height. " +
@@ -1029,4 +1032,191 @@ func globalArrayElems(g *ssa.Global) ([]ssa.Value, *ssa.Function) {
 		return nil, nil
 	}
 	return out, initFn
+}
+
+// checkMsgListsExhausted (C16-list-exhausted): a message that carries a LIST (feeders to
+// add or remove, prices to feed) is applied to every element or fails as a whole.  For every
+// oracle message handler and every loop that ranges over a field of the message: no success
+// exit of the handler is reachable from inside the loop body other than through the loop
+// header (no `break`, no early `return nil`).  A feeder left registered because the loop
+// stopped at an unknown address keeps the right to overwrite prices.
+func checkMsgListsExhausted(P *core.Program, R *core.Report) {
+	const rule = "C16-list-exhausted"
+	n := 0
+	for _, r := range msgRoots(P, R) {
+		if !strings.HasPrefix(r.Key, "x/oracle/keeper.") || r.Fn == nil || r.Msg == nil {
+			continue
+		}
+		fn := r.Fn
+		ff := P.Facts(fn)
+		for _, h := range fn.Blocks {
+			// a range loop header: it holds the index φ and its condition is index < len(x)
+			if len(h.Instrs) == 0 || len(h.Succs) != 2 {
+				continue
+			}
+			iff, ok := h.Instrs[len(h.Instrs)-1].(*ssa.If)
+			if !ok {
+				continue
+			}
+			bo, ok := iff.Cond.(*ssa.BinOp)
+			if !ok || bo.Op != token.LSS {
+				continue
+			}
+			lx, isLen := lenOf(ff, bo.Y)
+			if !isLen {
+				continue
+			}
+			overMsg := false
+			for _, o := range ff.Origins(lx) {
+				if o.Kind == "param" && o.Name == r.Msg.Name() && o.Path != "" {
+					overMsg = true
+				}
+			}
+			if !overMsg {
+				continue
+			}
+			// the loop: blocks dominated by h from which h is reachable
+			inLoop := map[*ssa.BasicBlock]bool{h: true}
+			for _, b := range fn.Blocks {
+				if b != h && h.Dominates(b) && blockReaches(b, h) {
+					inLoop[b] = true
+				}
+			}
+			n++
+			bad := ""
+			for b := range inLoop {
+				if b == h {
+					continue
+				}
+				if len(b.Succs) == 0 {
+					// a return inside the body
+					if ret, ok := b.Instrs[len(b.Instrs)-1].(*ssa.Return); ok {
+						for _, ex := range ff.Exits() {
+							if ex.Instr == ssa.Instruction(ret) && ex.Kind != core.ExitError {
+								bad = "a success return inside the loop body at " + P.Pos(P.InstrPos(ret))
+							}
+						}
+					}
+				}
+				for _, s := range b.Succs {
+					if inLoop[s] {
+						continue
+					}
+					// left the loop from the body: may a success exit follow?
+					if len(s.Instrs) == 0 {
+						continue
+					}
+					if _, reach := ff.SuccessExitReachableWithout(s.Instrs[0], func(in ssa.Instruction) bool { return in.Block() == h }); reach {
+						bad = "the loop is left from its body (break) at " + P.Pos(P.InstrPos(b.Instrs[len(b.Instrs)-1])) + " and the message still succeeds"
+					} else if ret, ok := s.Instrs[len(s.Instrs)-1].(*ssa.Return); ok && len(s.Instrs) == 1 {
+						for _, ex := range ff.Exits() {
+							if ex.Instr == ssa.Instruction(ret) && ex.Kind != core.ExitError {
+								bad = "the loop is left from its body to a success return at " + P.Pos(P.InstrPos(ret))
+							}
+						}
+					}
+				}
+			}
+			R.Add(rule, r.Key, "loop over a list of the message", P.Pos(P.InstrPos(iff)), bad == "", "every element is applied or the message fails. "+bad)
+		}
+	}
+	if n < 3 {
+		R.Add(rule, "-", "message list loops", "-", false, fmt.Sprintf("only %d loops over message lists found in the oracle handlers (anchor changed)", n))
+	}
+}
+
+func blockReaches(from, to *ssa.BasicBlock) bool {
+	seen := map[*ssa.BasicBlock]bool{}
+	var q []*ssa.BasicBlock
+	q = append(q, from.Succs...)
+	for len(q) > 0 {
+		b := q[0]
+		q = q[1:]
+		if b == to {
+			return true
+		}
+		if seen[b] {
+			continue
+		}
+		seen[b] = true
+		q = append(q, b.Succs...)
+	}
+	return false
+}
+
+// checkPriceStamped (C16-price-stamped): expiry is decided from the stamps a price carries
+// (EndBlock removes it when Timestamp + LifeTimeInSeconds or BlockHeight + LifeTimeInBlocks
+// is behind), so every Price record built by consensus code must carry both, taken from the
+// block being processed.  A literal without BlockHeight is born at height 0 and is swept at
+// the end of the very block that wrote it: lookups then serve an older price from a
+// non-preferred source.
+func checkPriceStamped(P *core.Program, R *core.Report) {
+	const rule = "C16-price-stamped"
+	subjects := P.Reach(P.FindRoots().Consensus())
+	var fns []*ssa.Function
+	for fn := range subjects {
+		if fn.Blocks != nil && !core.IsGeneratedOrAux(P.File(fn.Pos())) {
+			fns = append(fns, fn)
+		}
+	}
+	// the IBC packet handler is wired by the SDK's router, not by a Msg service: include the module's own code
+	for _, fn := range P.Funcs {
+		if fn.Blocks != nil && !subjects[fn] && strings.HasPrefix(P.Key(fn), "x/oracle.") && !core.IsGeneratedOrAux(P.File(fn.Pos())) && !strings.HasSuffix(P.File(fn.Pos()), "_test.go") {
+			fns = append(fns, fn)
+		}
+	}
+	sort.Slice(fns, func(i, j int) bool { return P.Key(fns[i]) < P.Key(fns[j]) })
+	n := 0
+	for _, fn := range fns {
+		var ff *core.FuncFacts
+		for _, b := range fn.Blocks {
+			for _, in := range b.Instrs {
+				al, ok := in.(*ssa.Alloc)
+				if !ok {
+					continue
+				}
+				pt, ok := al.Type().Underlying().(*types.Pointer)
+				if !ok || !strings.HasSuffix(pt.Elem().String(), "x/oracle/types.Price") {
+					continue
+				}
+				if ff == nil {
+					ff = P.Facts(fn)
+				}
+				set := map[string]ssa.Value{}
+				if al.Referrers() != nil {
+					for _, r := range *al.Referrers() {
+						if fa, ok := r.(*ssa.FieldAddr); ok && fa.Referrers() != nil {
+							for _, rr := range *fa.Referrers() {
+								if s, ok := rr.(*ssa.Store); ok && s.Addr == ssa.Value(fa) {
+									set[core.FieldName(fa.X.Type(), fa.Field)] = s.Val
+								}
+							}
+						}
+					}
+				}
+				if len(set) < 3 {
+					continue // an empty literal (zero value for "not found") or a loaded record being edited
+				}
+				n++
+				from := func(field, callee string) bool {
+					v, ok := set[field]
+					if !ok {
+						return false
+					}
+					for _, o := range ff.Origins(v) {
+						if o.Kind == "call" && strings.HasSuffix(o.Name, callee) {
+							return true
+						}
+					}
+					return false
+				}
+				okH, okT := from("BlockHeight", "BlockHeight"), from("Timestamp", "BlockTime") || from("Timestamp", "Unix")
+				R.Add(rule, P.Key(fn), "Price literal", P.Pos(P.InstrPos(al)), okH && okT,
+					fmt.Sprintf("a price written by consensus code carries the height and time of the block that writes it (BlockHeight stamped: %v, Timestamp stamped: %v)", okH, okT))
+			}
+		}
+	}
+	if n < 2 {
+		R.Add(rule, "-", "Price literals", "-", false, fmt.Sprintf("only %d price literals found in consensus code (anchor changed)", n))
+	}
 }
